@@ -34,7 +34,8 @@ TEXTS = []
 def load(tier):
     global TEXTS
     P = docs.pool()
-    TEXTS = [P[0].text(), P[2].text(), P[4].text()]
+    TEXTS = [P[0].text(), P[2].text(), P[4].text(),
+             '**kern\t**kern\n4c\t4e\n*clefG2\t*\n=1\t=1\n4d#\t4f\n*M4/4\t*\n=2\t=2\n2g\t2b\n*-\t*-\n']     # notes before the first clef, unequal signatures
 
 
 ENC = list(kp.Encoding)
@@ -91,6 +92,8 @@ OPS = [
     ('get_spine_ids', 1, lambda doc, p: doc.get_spine_ids()),
     ('graph', 1, lambda doc, p: _graph(doc)),
     ('clone+dumps', 1, lambda doc, p: kp.dumps(doc.clone())),
+    ('dumps(up to the last measure)', 2, lambda doc, p: kp.dumps(doc, from_measure=(1, doc.measures_count())[p], to_measure=doc.measures_count())),
+    ('dumps(from_measure only)', 2, lambda doc, p: kp.dumps(doc, from_measure=(1, 2)[p], encoding=kp.Encoding.eKern)),
     ('get_all_tokens(empty filter)', 3, lambda doc, p: _norm_tokens(doc.get_all_tokens(filter_by_categories=([], (), set())[p]))),
     ('get_unique_tokens(empty filter)', 2, lambda doc, p: _norm_tokens(doc.get_unique_tokens(filter_by_categories=([], set())[p]))),
     ('frequencies(empty filter)', 1, lambda doc, p: sorted(doc.frequencies(token_categories=[]).items())),
@@ -146,10 +149,12 @@ def ob_a(d: int, op: int) -> bool:
 
 @native
 def _a_body(d, inst):
+    r0 = run(inst, _fresh(d))               # reference taken BEFORE the call under test (a call may poison the whole process)
     doc = _fresh(d)
     before, g0 = snap(doc), snap_globals()
     args0 = copy.deepcopy(_cat_args()[1:])
     r = run(inst, doc)
+    check(r == r0, f'{_name(inst)}: two fresh imports give different results: {str(r)[:200]!r} vs {str(r0)[:200]!r}')
     after, g1 = snap(doc), snap_globals()
     check(after == before, f'{_name(inst)} changed the document: {diff(before, after)}')
     check(g1 == g0, f'{_name(inst)} changed module-level state: {diff(g0, g1)}')
@@ -219,11 +224,13 @@ def ob_b(d: int, o1: int, o2: int) -> bool:
 
 @native
 def _b_body(d, i1, i2):
+    ref = run(i2, _fresh(d))                 # reference taken BEFORE the first operation
     doc = _fresh(d)
     run(i1, doc)
     r = run(i2, doc)
+    check(r == ref, f'{_name(i2)} after {_name(i1)}: {str(r)[:300]!r}, alone on a fresh import (before): {str(ref)[:300]!r}')
     r2 = run(i2, _fresh(d))
-    check(r == r2, f'{_name(i2)} after {_name(i1)}: {str(r)[:300]!r}, alone on a fresh import: {str(r2)[:300]!r}')
+    check(r2 == ref, f'{_name(i2)} on a fresh import AFTER {_name(i1)} ran on another document: {str(r2)[:300]!r}, before: {str(ref)[:300]!r}')
     return True
 
 
@@ -249,7 +256,7 @@ OBLIGATIONS = [
     Ob(id='C14.a', fn=ob_a, title='frame lemma: no read-only operation changes the document, module-level state or its arguments; result == fresh copy',
        shard_of=lambda d, op: op, shards={'quick': 8, 'thorough': 8}, budget_s={'quick': 150, 'thorough': 600},
        witnesses=[{'d': 0, 'op': 0}], min_confirmed=150, enumerated='document, operation instance (%d instances of %d kinds, incl. calls that raise)' % (len(INST), len(OPS)),
-       bounds={'quick': '3 pool documents x every operation instance', 'thorough': 'same'}),
+       bounds={'quick': '3 pool documents + 1 document with notes before the first clef x every operation instance', 'thorough': 'same'}),
     Ob(id='C14.a2', fn=ob_a2, title='frame lemma for dumps with arbitrary integer measure range (also when it raises)',
        shard_of=lambda d, a, b: d, shards={'quick': 3, 'thorough': 3}, budget_s={'quick': 150, 'thorough': 600}, opaque_numbers=True, untrace=UNTRACE,
        witnesses=[{'d': 0, 'a': 1, 'b': 2}, {'d': 1, 'a': -5, 'b': 0}], min_confirmed=15,
